@@ -43,10 +43,12 @@ theorem Foot.wakeS {P : Par} {s : S} (hG : Good P s) {u : Nat} (hu : u ≤ P.L.n
   · exact Foot.refl _ _ _
 
 theorem Foot.waitS (L : Line) (s : S) (j : Nat) : Foot L [j] s (waitS s j) := by
-  unfold C04W.waitS
+  unfold C04W.waitS C04W.waitS0
   split
+  · split
+    · exact Foot.refl _ _ _
+    · exact Foot.setD L s j _
   · exact Foot.refl _ _ _
-  · exact Foot.setD L s j _
 
 theorem Foot.notifyS {P : Par} {s : S} (hG : Good P s) {j : Nat} (hj : j ≤ P.L.n) :
     Foot P.L [j - 1, j] s (notifyS P s j) := by
